@@ -67,6 +67,14 @@ def load_baseline():
     return {}
 
 
+def code_changed(base, cur):
+    """has the code of the function (AST without positions/docstrings/comments, plus inlined callees) changed since the
+    reference tree?  Older baseline entries only carry the text hash."""
+    if base.get('ast_sha') and cur.get('ast_sha'):
+        return base['ast_sha'] != cur['ast_sha']
+    return base.get('sha') != cur.get('sha')
+
+
 def stable_name(name):
     return re.sub(r'@L\d+', '', name)
 
@@ -210,6 +218,7 @@ def run_property(pid, tier, seed, out=sys.stdout):
     solver_s = 0.0
     vacuity_unchecked = []
     refuted_known = []
+    cex_budget = [6]        # at most this many solver models are decoded and replayed per run
 
     def relevant(q, f):
         """a native failure counts for this property unless every failed clause is tagged for other properties only
@@ -309,9 +318,27 @@ def run_property(pid, tier, seed, out=sys.stdout):
             path = os.path.join(VERIF, 'replays', '%s-%s.json' % (pid, sanitize(name)))
             entry['native'] = dict(qualname=q, seed=nf['seed'], index=nf['index'], args=nf['args'],
                                    failed=nf['failed'], result=nf.get('result')) if nf else None
+            if refuted and not nf and per[q].get('entry') and cex_budget[0] > 0:
+                # the verifier's own counterexample: read the arguments out of the model and run them on the real code
+                cex_budget[0] -= 1
+                from pyvc import cex
+                rob = [o for o, x in bad if x['verdict'] == solve.REFUTED][0]
+                cargs, why_not = None, None
+                for opts in ({}, {'smt.mbqi': False}):
+                    cargs, why_not = cex.decode(rob, per[q]['entry'], S.CONTRACTS[q], opts)
+                    if cargs is not None:
+                        break
+                if cargs is not None:
+                    rr = cex.replay_native(VERIF, q, cargs)
+                    entry['counterexample_replay'] = dict(status=rr.get('status'), failed=rr.get('failed'), why=rr.get('why'), exc=rr.get('exc'))
+                    if rr.get('status') == 'fail':
+                        entry['native'] = dict(qualname=q, explicit_args=cargs, failed=rr.get('failed'), result=rr.get('result'),
+                                               origin='arguments decoded from the solver model of the refuted obligation')
+                else:
+                    entry['counterexample_replay'] = dict(status='not-decoded', why=why_not)
             entry['property'] = pid
             json.dump(entry, open(path, 'w'), indent=1, default=str)
-            violations.append((name, path, nf is not None))
+            violations.append((name, path, entry['native'] is not None))
         elif nf and not label_match:
             # the function's contract fails natively on another clause: report that clause
             path = os.path.join(VERIF, 'replays', '%s-%s.json' % (pid, sanitize(name)))
@@ -323,7 +350,7 @@ def run_property(pid, tier, seed, out=sys.stdout):
         else:
             why = 'solver: %s' % ((r.get('info') or {}).get('reason', 'unknown'))
             base = baseline.get(q)
-            if base is not None and base.get('sha') != per[q].get('sha'):
+            if base is not None and code_changed(base, per[q]):
                 # The text of this function (or of a callee inlined into it) differs from the reference tree on which
                 # every obligation of the function was discharged, and this obligation is no longer accepted: reported
                 # as a violation without a failing input.  On unchanged text the same outcome can only be solver
@@ -440,8 +467,8 @@ def run_property(pid, tier, seed, out=sys.stdout):
         for q in fucs:
             if per[q].get('sha'):
                 old = bl.get(q, {})
-                prev = set(old.get('proved', [])) if old.get('sha') == per[q]['sha'] else set()
-                bl[q] = dict(sha=per[q]['sha'], proved=sorted(prev | proved_by_fn.get(q, set())))
+                prev = set(old.get('proved', [])) if not code_changed(old, per[q]) else set()
+                bl[q] = dict(sha=per[q]['sha'], ast_sha=per[q].get('ast_sha'), proved=sorted(prev | proved_by_fn.get(q, set())))
         json.dump(bl, open(BASELINE_FILE, 'w'), indent=0, sort_keys=True)
     if os.environ.get('PYVC_RECORD_HINTS'):
         # maintenance mode: remember which solver configuration discharged each obligation (speed hint, see solve.py)
